@@ -939,18 +939,25 @@ def thread_known_switches(bodies, max_chain=12, max_rounds=6):
                 known = bool_transfer(body, p, {})
                 if not known:
                     continue
-                chain = []
+                chain = []            # [(block, decided successor | None)]
                 cur = t["to"]
-                decided = None
-                while len(chain) < max_chain and cur is not None and cur not in chain and cur != p:
+                last = -1
+                visited = {p}
+                while len(chain) < max_chain and cur is not None and cur not in visited:
+                    visited.add(cur)
                     ct = blocks[cur]["term"]
                     if blocks[cur].get("cleanup"):
                         break
                     known = bool_transfer(body, cur, known)
-                    chain.append(cur)
                     if ct["t"] == "switch":
-                        decided = bool_switch_target(body, cur, known)
-                        break
+                        dec = bool_switch_target(body, cur, known)
+                        if dec is None:
+                            break
+                        chain.append((cur, dec))
+                        last = len(chain) - 1
+                        cur = dec                       # keep going: a later switch may be decided as well
+                        continue
+                    chain.append((cur, None))
                     if ct["t"] in ("goto", "drop", "falseedge") and isinstance(ct.get("to"), int):
                         cur = ct["to"]
                         continue
@@ -958,35 +965,35 @@ def thread_known_switches(bodies, max_chain=12, max_rounds=6):
                         cur = ct["to"]
                         continue
                     break
-                if decided is None:
+                if last < 0:
                     continue
+                chain = chain[:last + 1]
                 # copy the chain for P
                 base = len(blocks)
-                for k, c in enumerate(chain):
+                dead = base + len(chain)
+                for k, (c, dec) in enumerate(chain):
                     nb = copy.deepcopy(blocks[c])
                     nb["threaded_from"] = c
-                    # a discriminant temporary (`d = discriminant(x); switch move d`) gets its own local in the
-                    # copy, so that it keeps a single definition
+                    nxt = base + k + 1 if k + 1 < len(chain) else None
                     st_t = nb["term"]
-                    if st_t["t"] == "switch" and _bare_local(st_t["d"]) is not None:
-                        dl_ = _bare_local(st_t["d"])
-                        dd = [s_ for s_ in nb["stmts"] if s_.get("s") == "assign" and s_["p"]["l"] == dl_ and not s_["p"]["p"]]
-                        if len(dd) == 1 and dd[0]["rv"]["r"] == "discr" and "m" in st_t["d"]:
-                            raw["locals"].append(copy.deepcopy(raw["locals"][dl_]))
-                            nl_ = len(raw["locals"]) - 1
-                            dd[0]["p"]["l"] = nl_
-                            st_t["d"] = {"m": {"l": nl_, "p": []}}
-                    if k + 1 < len(chain):
-                        nb["term"]["to"] = base + k + 1
+                    if dec is None:
+                        nb["term"]["to"] = nxt
                     else:
-                        # keep the switch (its edge labels carry meaning: "the Err edge of this Result"), but only the
-                        # decided edge remains; the others lead nowhere
-                        dead = base + len(chain)
-                        st_ = nb["term"]
-                        keep_else = st_["else"] == decided and not any(tb == decided for _, tb in st_["targets"])
-                        st_["targets"] = [[v_, (tb if tb == decided else dead)] for v_, tb in st_["targets"]]
-                        st_["else"] = decided if keep_else else dead
-                        st_["threaded"] = True
+                        # a discriminant temporary gets its own local in the copy, so that it keeps a single definition
+                        if _bare_local(st_t["d"]) is not None:
+                            dl_ = _bare_local(st_t["d"])
+                            dd = [s_ for s_ in nb["stmts"] if s_.get("s") == "assign" and s_["p"]["l"] == dl_ and not s_["p"]["p"]]
+                            if len(dd) == 1 and dd[0]["rv"]["r"] == "discr" and "m" in st_t["d"]:
+                                raw["locals"].append(copy.deepcopy(raw["locals"][dl_]))
+                                nl_ = len(raw["locals"]) - 1
+                                dd[0]["p"]["l"] = nl_
+                                st_t["d"] = {"m": {"l": nl_, "p": []}}
+                        # keep the switch (its edge labels carry meaning), but only the decided edge remains
+                        tgt = nxt if nxt is not None else dec
+                        keep_else = st_t["else"] == dec and not any(tb == dec for _, tb in st_t["targets"])
+                        st_t["targets"] = [[v_, (tgt if tb == dec else dead)] for v_, tb in st_t["targets"]]
+                        st_t["else"] = tgt if keep_else else dead
+                        st_t["threaded"] = True
                     blocks.append(nb)
                 blocks.append({"cleanup": False, "stmts": [], "term": {"t": "unreachable", "sp": t.get("sp")}, "lowered": True})
                 t["to"] = base
